@@ -37,7 +37,7 @@ def main():
             # a demonstration that must PASS on this tree (the repaired twin of a seeded change: same refactoring, break removed)
             demo = sys.argv[3]
             sh("cargo build --offline 2>&1 | tail -1", cwd=wt, env=env)
-            rcd, outd = sh("sh %s %s" % (demo, wt), cwd=os.path.dirname(demo), env=dict(env, SFS_ALLOW_STDIN="1"))
+            rcd, outd = sh("bash %s %s" % (demo, wt), cwd=os.path.dirname(demo), env=dict(env, SFS_ALLOW_STDIN="1"))
             if rcd != 0:
                 print("%s: REJECTED (the demonstration still fails on the repaired tree: exit %d)\n%s" % (name, rcd, outd[-400:]))
                 return 1
